@@ -11,6 +11,12 @@ CHECKS = {
  "C02": (True, "proptest choice-stream PBT: exact fraction-elimination determinant/inverse oracle over rationals and Gaussian rationals, det(A^T)/det(AB) laws, bitwise operand snapshots; libFuzzer on the same decoder (thorough)",
          "Generated-input search over structured singular and nonsingular matrices of order 1..8 in three element types; determinant and inverse compared with exact linear algebra; held on everything explored.",
          "Trusted: i128 rational elimination oracle, Hadamard/condition-number based float bounds (constants calibrated with >100x head-room).", "5/C02"),
+ "C03": (True, "exhaustive shape enumeration (729 triples) + model-based operation histories over exact rationals, proptest-driven and shrunk; libFuzzer on the same decoder (thorough)",
+         "Every operator/method of Matrix is compared entry-by-entry and by shape with a Vec<Vec<Rat>> model for all 729 shape triples up to 8 in every run, plus random histories of up to 40 edits with a full comparison after every step; exhaustive over shapes, sampled over values and histories.",
+         "Trusted: the naive reference model; identities polynomial in the entries so random rational points suffice with overwhelming probability.", "5/C03"),
+ "C04": (True, "exhaustive (type,n,m1,m2) enumeration + generated value patterns; dense reference model, exact determinant, backward-error oracle, two-padding differential; proptest + libFuzzer(thorough)",
+         "All 3 x 385 size/bandwidth configurations are enumerated in every run with dozens of generated value patterns each (mixed signs, zero/negative diagonals, tiny sub-diagonals, singular); every result compared with the dense twin exactly (rationals) or within rounding bounds (floats), and between two padding values bitwise.",
+         "Trusted: dense reference elimination, i128 rational determinant oracle (numerical fallback when it overflows on float data), float bounds with >100x head-room.", "5/C04"),
 }
 NOT_YET = "check not built yet in this revision of /verif (work in progress); the design for it is in DESIGN.md section 5"
 
